@@ -586,10 +586,20 @@ class ChangePoint(CovarianceFunction):
 
         for i in range(self.n_kernels - 1):
             w = w_vals[i]
+            # kernel i is also weighted by the previous change-point, and
+            # kernel i+1 by the next one, when those change-points exist
+            lwr_coeff, upr_coeff = 1.0, 1.0
+            if i > 0:
+                lwr_coeff = w_vals[i - 1][:, None] * w_vals[i - 1][None, :]
+            if i < self.n_kernels - 2:
+                upr_coeff = (1 - w_vals[i + 1])[:, None] * (1 - w_vals[i + 1])[None, :]
             for dw in w_grads[i]:
                 A = -dw[:, None] * (1 - w)[None, :]
                 B = dw[:, None] * w[None, :]
-                gradients.append(K_vals[i] * (A + A.T) + K_vals[i + 1] * (B + B.T))
+                gradients.append(
+                    K_vals[i] * (A + A.T) * lwr_coeff
+                    + K_vals[i + 1] * (B + B.T) * upr_coeff
+                )
         return covar, gradients
 
     @staticmethod
